@@ -74,6 +74,15 @@ func (g *genC04) Block(w *World, b int) Block {
 			}
 		}
 	}
+	if rng.Chance(1, 9) {
+		pol := rng.Pick64(0, 5, 10, 20, 40, 60, 100)
+		ref := rng.Range(0, 100-pol)
+		ps := Step{Kind: "param", S: map[string]string{"module": "storage"}, N: map[string]int64{"pol_ratio": pol, "referral_commission": ref}}
+		if rng.Chance(1, 2) {
+			ps.S["via"] = "gov"
+		}
+		steps = append(steps, ps)
+	}
 	k := rng.Intn(4)
 	for i := 0; i < k; i++ {
 		u := g.users[rng.Intn(len(g.users))]
